@@ -114,3 +114,130 @@ def run_a(prog, res):
             stat.sample({"tag": name, "equal?": "%s at %s" % (comp, where), "hash": "not hashed by representation"})
     res.notes.append("hash_one hashes raw trailing bytes for: %s" % sorted(model.tagname.get(model.tag_num(k), k) for k in raw))
     return stat
+
+
+def run_c(prog, res):
+    """hash_one never folds the address of a heap object into a structural hash"""
+    stat = res.stat("C15.c", "hash_one folds the machine word of a value into the hash only where the value is an immediate",
+                    floor=1)
+    model = KindModel(prog)
+    fn = prog.func("hash_one")
+    o = [v for v in fn.params if fn.vars[v]["n"] == "obj"]
+    if not o:
+        raise AnalysisBroken("anchor vanished: parameter obj of hash_one")
+    ka = KindAnalysis(model, fn, {o[0]: model.U})
+    ka.sticky = {o[0]}
+    sites = []
+    for i, nd in enumerate(fn.nodes):
+        if nd["k"] == "bin" and nd["o"] in ("^=", "+=", "*=", "|=", "="):
+            rhs = nd["c"][1]
+            for x in fn.subtree(rhs):
+                xn = fn.nodes[x]
+                # an integer cast applied directly to a sexp-typed expression: the value's own word
+                if xn["k"] == "cast" and not (fn.type(x) or "").endswith("*"):
+                    inner = fn.strip(xn["c"][0])
+                    if fn.type(inner) == tables.SEXP_T and fn.nodes[inner]["k"] == "ref" and fn.nodes[inner].get("d") == o[0]:
+                        lhs = fn.strip(nd["c"][0])
+                        if fn.nodes[lhs]["k"] == "ref" and fn.vars[fn.nodes[lhs]["d"]]["n"] == "acc":
+                            ka.probes[i] = inner
+                            sites.append(i)
+    if not sites:
+        raise AnalysisBroken("anchor vanished: hash_one no longer hashes immediates by their word")
+    ka.run()
+    for i in sites:
+        stat.sites += 1
+        stat.obligations += 1
+        ks = ka.probe_results.get(i)
+        heap = sorted(k for k in (ks or []) if not k.startswith("i:"))
+        if ks is not None and not heap:
+            stat.discharged += 1
+            stat.sample({"site": fn.where(i), "statement": fn.txt(i)[:60], "kinds": model.describe(ks)})
+        else:
+            res.add(Finding("C15", "C15.c.address-hashed", "hash_one", fn.txt(i)[:60], fn.where(i),
+                            "hash_one folds the machine word of `obj` into the hash on a path where obj may be a heap object "
+                            "(%s): the hash then depends on the allocation address, so two equal? values built separately "
+                            "hash differently" % model.describe(frozenset(heap))[:80], unit=fn.unit.display))
+    return stat
+
+
+def run_d(prog, res):
+    """entry-count accounting of the C hash table: the size slot is updated on exactly the
+    paths that link or unlink an entry of a bucket chain"""
+    from cfg import PathExplorer
+    stat = res.stat("C15.d", "(srfi 69) C primitives: a path stores the table's size slot iff it links/unlinks a chain entry",
+                    floor=2)
+    u = prog.unit("hash.c")
+    if u is None:
+        raise AnalysisBroken("anchor vanished: lib/srfi/69/hash.c")
+    for fn in u.functions.values():
+        htv = [v for v in fn.params if fn.vars[v]["n"] == "ht"]
+        if not htv:
+            continue
+        htv = htv[0]
+        # locals loaded from slot 0 of ht (the bucket vector)
+        bucket_vars = set()
+        size_stores, chain_stores = set(), set()
+
+        def slot_of_ht(n):
+            """((sexp*)&ht->value)[k] -> k"""
+            n = fn.strip(n)
+            nd = fn.nodes[n]
+            if nd["k"] == "idx":
+                base = fn.strip(nd["c"][0])
+                bn = fn.nodes[base]
+                if bn["k"] == "un" and bn["o"] == "&":
+                    m = fn.strip(bn["c"][0])
+                    if fn.nodes[m]["k"] == "mem" and fn.nodes[m]["o"] == "value":
+                        r = fn.strip(fn.nodes[m]["c"][0])
+                        if fn.nodes[r]["k"] == "ref" and fn.nodes[r].get("d") == htv:
+                            return fn.const_val(nd["c"][1])
+            return None
+
+        for i, nd in enumerate(fn.nodes):
+            if nd["k"] == "bin" and nd["o"] == "=":
+                l = fn.strip(nd["c"][0])
+                if fn.nodes[l]["k"] == "ref" and "d" in fn.nodes[l] and slot_of_ht(nd["c"][1]) == 0:
+                    bucket_vars.add(fn.nodes[l]["d"])
+        for i, nd in enumerate(fn.nodes):
+            if nd["k"] != "bin" or nd["o"] != "=":
+                continue
+            l = fn.strip(nd["c"][0])
+            ln = fn.nodes[l]
+            if slot_of_ht(l) == 1:
+                size_stores.add(i)
+            elif ln["k"] == "idx" and (fn.refs_in(ln["c"][0]) & bucket_vars):
+                chain_stores.add(i)
+            elif ln["k"] == "mem" and ln["o"] == "cdr":
+                chain_stores.add(i)
+        if not size_stores:
+            continue
+        stat.sites += 1
+        stat.obligations += 1
+        bad = []
+
+        def transfer(bid, e, st):
+            if e in size_stores:
+                return [(True, st[1])]
+            if e in chain_stores:
+                return [(st[0], True)]
+            return None
+
+        def at_exit(bid, st, key):
+            if st[0] != st[1]:
+                bad.append((st, key))
+
+        ex = PathExplorer(fn, transfer, None, at_exit)
+        ex.run((False, False))
+        if not bad:
+            stat.discharged += 1
+            stat.sample({"function": fn.name, "size_stores": len(size_stores), "chain_stores": len(chain_stores),
+                         "verdict": "paired on every path"})
+        else:
+            st, key = bad[0]
+            res.add(Finding("C15", "C15.d.size-accounting", fn.name,
+                            "size %s, chain %s" % ("updated" if st[0] else "not updated", "modified" if st[1] else "not modified"),
+                            fn.where(), "%s has a path that %s the table's size slot but %s a bucket chain: hash-table-size and "
+                            "the resize policy drift away from the real number of entries" %
+                            (fn.name, "updates" if st[0] else "does not update", "modifies" if st[1] else "does not modify"),
+                            unit=fn.unit.display, path=["B%s" % b for b in ex.path_to(key)]))
+    return stat
